@@ -246,6 +246,13 @@ def run_property(pid, tier, seed, relock=False, verbose=False):
         q = fn_of[o.id]
         lv = lock.get(o.id if not P.get('kinds') else pid + ':' + o.id)
         locked = lv is not None and lv != 'open'
+        if lv is None and o.meta.get('kind', '').split(':')[0] in ('post', 'raises', 'frame', 'fresh', 'no-other-exception'):
+            # obligations of the CONTRACT clauses (not of a code position) are numbered along the paths of the function: an edit that
+            # changes the number of paths shifts their ids.  They count as locked when the lock holds discharged obligations of the same
+            # kind for the same function@case and none of that kind is open (every clause of that kind was proved on the unchanged tree)
+            pre = (pid + ':' if P.get('kinds') else '') + o.id.split('/')[0] + '/' + o.meta['kind'].split(':')[0]
+            same = [v for k2, v in lock.items() if k2.startswith(pre)]
+            locked = bool(same) and all(v != 'open' for v in same)
         if lv == 'open' and r.verdict == 'unknown':
             # not discharged when the lock was written either: an OPEN obligation (listed in the evidence, never counted as proved)
             open_obls.append({'id': o.id, 'text': o.meta['text'][:160]})
